@@ -40,6 +40,14 @@ Theorem C11_partition_consecutive : forall plo phi c, 1 <= c -> plo <= phi ->
 Proof. exact partition_chain. Qed.
 Print Assumptions C11_partition_consecutive.
 
+(** explicitly: every span stays inside [plo, phi] and the last span is clipped to end exactly at phi
+    (this is the min(i + step, stop) of util.partition; without it the last span would overrun phi) *)
+Theorem C11_partition_clipped : forall plo phi c, 1 <= c -> plo <= phi ->
+  Forall (fun s => plo <= fst s /\ fst s <= snd s /\ snd s <= phi) (partition plo phi c) /\
+  (partition plo phi c <> [] -> snd (last (partition plo phi c) (0, 0)) = phi).
+Proof. exact partition_clipped. Qed.
+Print Assumptions C11_partition_clipped.
+
 Theorem C11_partition_index_once : forall plo phi c k, 1 <= c -> plo <= k < phi ->
   exists sp, filter (in_span k) (partition plo phi c) = [sp].
 Proof. exact partition_index_once. Qed.
